@@ -1,7 +1,9 @@
 (* Model of the bitmap font code of icy_engine (executable Gallina only, no proofs).
 
    Mirrors, in src/fonts.rs (the merged tree: the `fix:` commits of C17 plus C10's c9c7437, which replaced every
-   `char::from_u32_unchecked(i)` by the checked `char::from_u32(i)`: a code that is not a char has no glyph):
+   `char::from_u32_unchecked(i)` by the checked `char::from_u32(i)`: a code that is not a char has no glyph;
+   plus fix fB: the three loaders behind from_bytes reject a glyph size outside 1..=MAX_FONT_WIDTH x 1..=MAX_FONT_HEIGHT
+   (8 x 32) and load_psf2 a charsize different from the height):
      glyphs_from_u8_data   -> glyph_loop / glyphs_from_u8_data
      BitFont::create_8     -> create_8            BitFont::from_basic      -> from_basic
      BitFont::load_psf1    -> load_psf1           BitFont::load_plain_font -> load_plain_font
@@ -29,7 +31,7 @@
       no longer exist: c9c7437 writes an empty glyph for a missing one and uses the checked conversion)
      site 6  vec![0; height as usize] with a negative height (capacity overflow) in to_psf2_bytes / convert_to_u8_data
      site 7  data[0..4] / data[4..4+size] in read_utf8_encoded_string (IcyDraw font chunk)
-   Error classes (`Err e`): 3 UnsupportedVersion, 4 LengthMismatch, 5 UnknownFontFormat,
+   Error classes (`Err e`): 3 UnsupportedVersion, 4 LengthMismatch, 5 UnknownFontFormat, 6 UnsupportedSize,
      21 invalid custom font dcs, 22 cannot decode base64, 23 cannot load bit font from dcs. *)
 From Coq Require Import NArith ZArith List Bool.
 From IE Require Import Lib.C17Lib Gen.FontConsts.
@@ -41,6 +43,7 @@ Record font := mkFont { f_w : Z; f_h : Z; f_len : Z; f_glyphs : list (list N) }.
 Definition E_VERSION : N := 3.
 Definition E_LENGTH : N := 4.
 Definition E_UNKNOWN_FORMAT : N := 5.
+Definition E_SIZE : N := 6.
 Definition E_DCS_INVALID : N := 21.
 Definition E_DCS_BASE64 : N := 22.
 Definition E_DCS_FONT : N := 23.
@@ -66,19 +69,22 @@ Definition create_8 (w h : N) (data : list N) : font :=
 Definition from_basic (w h : N) (data : list N) : font :=
   mkFont (Z.of_N w) (Z.of_N h) 256 (glyphs_from_u8_data h data).
 
+(* fix fB: `if charsize == 0 || charsize as usize > MAX_FONT_HEIGHT { return Err(UnsupportedSize(8, charsize)) }` *)
 Definition load_psf1 (data : list N) : res font :=
   match data with
   | _ :: _ :: mode :: charsize :: rest =>
+    if (charsize =? 0) || (MAX_FONT_HEIGHT <? charsize) then Err E_SIZE else
     let length := if N.land mode PSF1_MODE512 =? PSF1_MODE512 then 512%Z else 256%Z in
     Ok (mkFont 8 (Z.of_N charsize) length (glyphs_from_u8_data charsize rest))
   | _ => Panic 2
   end.
 
+(* fix fB: `if data.len() % 256 != 0 || char_height == 0 || char_height > MAX_FONT_HEIGHT { return Err(UnknownFontFormat) }` *)
 Definition load_plain_font (data : list N) : res font :=
   let n := lenN data in
-  if negb (n mod 256 =? 0) then Err E_UNKNOWN_FORMAT
-  else let h := n / 256 in
-       Ok (mkFont 8 (as_i32 h) 256 (glyphs_from_u8_data h data)).
+  let h := n / 256 in
+  if negb (n mod 256 =? 0) || (h =? 0) || (MAX_FONT_HEIGHT <? h) then Err E_UNKNOWN_FORMAT
+  else Ok (mkFont 8 (as_i32 h) 256 (glyphs_from_u8_data h data)).
 
 Definition load_psf2 (data : list N) : res font :=
   let n := lenN data in
@@ -92,6 +98,9 @@ Definition load_psf2 (data : list N) : res font :=
   if negb (length * charsize + headersize =? n) || (MAX_GLYPHS <? length) then Err E_LENGTH else
   do height <- u32_at 1 data 24;
   do width <- u32_at 1 data 28;
+  (* fix fB: the glyph size is 1..=MAX_FONT_WIDTH x 1..=MAX_FONT_HEIGHT, and a glyph (one byte per row) takes `height` bytes *)
+  if (width =? 0) || (MAX_FONT_WIDTH <? width) || (height =? 0) || (MAX_FONT_HEIGHT <? height) then Err E_SIZE else
+  if negb (charsize =? height) then Err E_LENGTH else
   do rest <- drop 3 headersize data;
   Ok (mkFont (as_i32 width) (as_i32 height) (as_i32 length) (glyphs_from_u8_data height rest)).
 
